@@ -3,6 +3,7 @@ import Mp.EscProofs
 import Mp.EscBridge
 import Mp.RoundTrip
 import Mp.RoundTripGo
+import Mp.EvalStruct
 /-! C09 — property theorems (proved in the imported modules; statements are checked there, axioms audited here). -/
 #print axioms Esc.literal_roundtrip
 #print axioms Esc.seq_eq_sim
@@ -32,3 +33,8 @@ import Mp.RoundTripGo
 #print axioms Mp.funcLoop_args
 #print axioms Mp.parseFunc_callA
 #print axioms Mp.go_arg
+#print axioms Mp.elab_erPath
+#print axioms Mp.selOf_er
+#print axioms Mp.eval_of_same_structure
+#print axioms Mp.evalLogic_of_same_structure
+#print axioms Mp.elab_ignores_marks
